@@ -229,6 +229,8 @@ def gen_plan(prop, run_seed, tier, ctx):
     if heavy and ctx.get('dt_focus'):
         cand = [g for g in cand if (g[1], g[2]) in ctx['dt_focus']] or cand
     focus = dec.sample('focus', cand, 1 + dec.choice('n-focus', 3))
+    # currency calls cost 3-5e5 steps each (trie walk): keep them, but rarer
+    focus = [g for g in focus if g[0] != 'Currency' or dec.choice('keep-currency', 4) == 0] or [cand[dec.choice('focus2', len(cand))]]
     if not heavy and dec.choice('mix-dt', 6) == 0:
         dt = [g for g in gkeys if g[0] == 'DateTime' and (not ctx.get('dt_focus') or (g[1], g[2]) in ctx['dt_focus'])]
         if dt:
@@ -245,7 +247,7 @@ def gen_plan(prop, run_seed, tier, ctx):
     has_dt = any(g[0] == 'DateTime' for g in focus)
     cold = False
     if dec.chance('cold', 0.5):
-        cold = 'full' if (has_dt and dec.chance('cold-full', 0.1)) else 'light'
+        cold = 'full' if (has_dt and dec.chance('cold-full', 0.04)) else 'light'
     clients = []
     for cid in range(n_clients):
         ops = []
@@ -283,7 +285,7 @@ def gen_plan(prop, run_seed, tier, ctx):
         sched = {'kind': 'pct', 'depth': 1 + dec.choice('depth', 4), 'k': max(50, int(total_est))}
     else:
         sched = {'kind': 'walk', 'p': [1e-4, 3e-4, 1e-3, 3e-3][dec.choice('p-switch', 4)]}
-    return {'clients': clients, 'sched': sched, 'cold': cold, 'sched_seed': derive_seed(run_seed, 'sched'),
+    return {'clients': clients, 'sched': sched, 'cold': cold, 'cold_cultures': sorted({g[1] for g in focus if g[0] == 'DateTime'}), 'sched_seed': derive_seed(run_seed, 'sched'),
             'fault_free': fault_free}
 
 
@@ -319,16 +321,15 @@ def gen_get_op(dec, ctx, focus):
 
 # ------------------------------------------------------------------------------------------------ execution
 
-def evict(scope):
+def evict(scope, focus_cultures=None):
     """Process restart (nothing durable): the cache is lost. 'full' drops everything; 'light' keeps the date-time models
     (1-5 s each to rebuild) — the state 'restarted, date-time already requested again' — so that cold starts stay cheap."""
     cache = lib.cache_dict()
-    if scope == 'full':
-        cache.clear()
-    else:
-        for k in [k for k in list(cache) if k.model_type != 'DateTimeModel']:
-            del cache[k]
-    barrier.STATE['dirty'] = True
+    gone = []
+    for k in list(cache):
+        if k.model_type != 'DateTimeModel' or (scope == 'full' and (not focus_cultures or k.culture in focus_cultures)):
+            gone.append(cache.pop(k))
+    barrier.on_evict(gone)
 
 
 class Env:
@@ -389,7 +390,7 @@ def execute_plan(prop, plan, env, recorded=None):
     ctx = env.ctx
     pool, golden = ctx['pool'], ctx['golden']
     if plan['cold']:
-        evict(plan['cold'])
+        evict(plan['cold'], plan.get('cold_cultures'))
     barrier.rebuild(lib.cache_dict())
     clients = [baton.Client(c['cid'], c['ops'], c['placement']) for c in plan['clients']]
     policy = make_policy(plan, len(clients), recorded)
@@ -507,7 +508,9 @@ def judge_get(op, rec, ctx):
     kind = op['kind']
     model_type = lib.KINDS[kind][2]
     reg = set(tuple(x) for x in ctx['registered'][kind])
-    exp = routing.expected(model_type, op['culture'], op['fallback'], ctx['supported'], reg)
+    # a request without a culture (None) means the recogniser's target culture (documented default of get_*_model)
+    requested = op['culture'] if (op['culture'] is not None and not op['use_target']) else op['target']
+    exp = routing.expected(model_type, requested, op['fallback'], ctx['supported'], reg)
     fail = None
     if exp[0] == 'ValueError':
         if rec['outcome'] != 'ValueError':
@@ -586,6 +589,9 @@ def run_batch(job):
     ctx['p_heavy'] = 0.25
     env = Env(ctx)
     env.install()
+    # pre-warm (untraced): this batch's date-time models, so that only runs that ask for a cold start pay for them
+    for (c, o) in sorted(ctx['dt_focus']):
+        lib.get_model('DateTime', c, o)
     rep = {'prop': prop, 'batch': job['batch'], 'runs': 0, 'ops': 0, 'steps': 0, 'switches': 0, 'signatures': {},
            'faults': {}, 'violations': [], 'known': {}, 'digests': [], 'samples': [], 'sites': {}, 'barrier_hits': 0,
            'barrier_sites': {}, 'ctor': {}, 'double_ctor': 0, 'placements': {}, 'threads': {}, 'capped': 0,
